@@ -222,6 +222,8 @@ def run(ctx):
                 gets = set()
                 ends = 0
                 for src in tr2.sources(op):
+                    while src[0] == "field":
+                        src = src[1]
                     if src[0] == "call":
                         t = b.blocks[src[1]]["t"]
                         if t["call"]["name"] == "get" and t["call"]["def"].startswith("regex::"):
@@ -363,6 +365,8 @@ def predicate_set(ctx, co, pb):
 
 
 def check_from_components(ctx, co, b):
+    # combinator chains (`(!dotted).then(|| format!(..)).ok_or(..).and_then(|rid| rid.parse())`) written out
+    b = inline.expand(co, b, depth=1, pred=lambda cb: cb.d.get("vis") != "pub" and tystr(cb.local_ty(0)) != "bool", lower=True)
     cfg = CFG(b)
     tr = Tracer(b)
     fmt = [bb for bb, t in b.calls() if t["call"]["name"] in ("parse", "from_str") and any(ty_adt(x) == RID for x in t["call"]["substs"])]
@@ -373,6 +377,10 @@ def check_from_components(ctx, co, b):
     for sbb, allowed, allv in dt.edge_conditions(cfg, fmt[0]):
         atom = dt.switch_atom(b, sbb)
         pol = dt.bool_polarity(allowed)
+        if atom[0] == "not" and pol is not None:
+            r_ = dt.resolve_copy(b, atom[1])
+            if r_[0] == "def" and r_[1][1] == "T" and "call" in r_[1][2]:
+                atom, pol = ("call", r_[1][2], atom[-1]), not pol
         if atom[0] == "call" and atom[1]["call"]["name"] in ("contains",):
             t = atom[1]
             roots = tr.root_locals(t["args"][0])
@@ -380,6 +388,20 @@ def check_from_components(ctx, co, b):
             if pol is False and pc is not None and (pc.get("char") == "." or pc.get("str") == "."):
                 for r in roots:
                     tested[r] = True
+        if atom[0] == "call" and atom[1]["call"]["name"] == "fold" and pol is False and len(atom[1]["args"]) == 3 and (dt.resolve_const(b, atom[1]["args"][1]) or {}).get("bool") is False:
+            # [a, b, c].iter().fold(false, |acc, x| acc || x.contains('.')) == false
+            t = atom[1]
+            clos = [s_ for s_ in tr.sources(t["args"][2]) if s_[0] == "agg"]
+            clo = co.body(b.blocks[clos[0][1]]["s"][clos[0][2]]["r"].get("id")) if len(clos) == 1 else None
+            if clo is not None:
+                cc = [t2 for _, t2 in clo.calls() if t2["call"]["name"] == "contains"]
+                dotc = len(cc) == 1 and ((dt.resolve_const(clo, cc[0]["args"][1]) or {}).get("char") == "." or (dt.resolve_const(clo, cc[0]["args"][1]) or {}).get("str") == ".") \
+                    and 3 in Tracer(clo, through_calls=True).root_locals(cc[0]["args"][0])
+                # the accumulator can only go from false to true: `acc || ..` (no assignment of false inside the closure)
+                resets = [s_ for _, _, s_ in clo.stmts() if place_local(s_["d"]) in dt.return_aliases(clo) and "use" in s_["r"] and (s_["r"]["use"].get("c") or {}).get("bool") is False]
+                if dotc and not resets:
+                    for r in Tracer(b, through_calls=True, through_agg=True).root_locals(t["args"][0]):
+                        tested[r] = True
         if atom[0] == "call" and atom[1]["call"]["name"] == "any" and pol is False and len(atom[1]["args"]) == 2:
             # [a, b, c].iter().any(|x| x.contains('.')) == false
             t = atom[1]
@@ -407,7 +429,7 @@ def routes(ctx, co, adt, short):
         ctx.check(bool(bs), "R16.4", "conjure_object", f"{short}|{tr_name}|exists", f"{tr_name} for {short} missing", nontrivial=False)
         for b in bs:
             # combinators lowered: `checked(s).map(Token)` is a construction
-            fam = [inline.expand(co, b, depth=0, lower=True)] + co.closures_of(b)
+            fam = [inline.expand(co, b, depth=3, pred=lambda cb: (cb.d.get("vis") != "pub" or (cb.trait or "").startswith("conjure_object::")) and cb.name not in ("new", "from_str") and tystr(cb.local_ty(0)) != "bool", lower=True)] + co.closures_of(b)
             makes = [s for x in fam for _, _, s in x.stmts() if s["r"].get("agg") == "adt" and s["r"]["adt"] == adt]
             calls = [t["call"] for x in fam for _, t in x.calls()]
             via = [f for f in calls if (f["def"] == "core::str::traits::FromStr::from_str" and ty_adt(f["substs"][0]) == adt)
